@@ -70,6 +70,10 @@ class World:
         fault = 'none' if small and rng.random() < 0.5 else rng.choice(['none', 'none', 'peer-drop', 'user-drop', 'both-drop', 'silence', 'error-replies', 'send-fails'])
         scen = {'callers': callers, 'order': rng.choice(['immediate', 'reverse', 'shuffle', 'delayed']), 'updates': rng.random() < 0.4,
                 'fault': fault, 'fault_at': rng.randint(0, max(0, sum(len(c) for c in callers))), 'peerseed': rng.randrange(1 << 20)}
+        if rng.random() < 0.25:
+            # the peer's replies arrive in two pieces, the second after a pause that may be longer than the receiver's
+            # socket time-out (1 s): the bytes already received must not be lost
+            scen['pieces'] = rng.choice([0.0, 0.3, 1.5, 2.5])
         if not small and rng.random() < 0.2:
             # staggered requests with equal keys against a slow peer that never answers the first one: time-outs of
             # sent and of held-back requests overlap with later requests of the same key
@@ -91,6 +95,21 @@ class World:
             held = []
             nreq = 0
 
+            def send_reply(item):
+                line, meta = item
+                gap = scen.get('pieces')
+                if gap is None or len(line) < 4:
+                    ok = sock.peer_send(line)
+                else:
+                    cut = rng.randrange(1, len(line) - 1)
+                    state['pieces_sent'] = state.get('pieces_sent', 0) + 1
+                    sock.peer_send(line[:cut])
+                    D.vsleep(gap)
+                    ok = not sock.closed and sock.peer_send(line[cut:])
+                if ok:
+                    state['replied'].append((s.now,) + meta)    # the whole reply is on the wire from now on
+                return ok
+
             def flush():
                 order = scen['order']
                 if order == 'reverse':
@@ -100,7 +119,7 @@ class World:
                 for line in held:
                     if scen['updates'] and rng.random() < 0.5:
                         sock.peer_send(encode('update', 'm:value', [rng.random(), {'t': 1.0}]))
-                    sock.peer_send(line)
+                    send_reply(line)
                 del held[:]
             while True:
                 data = sock.peer_recv(timeout=0.05 if held else None)
@@ -148,20 +167,21 @@ class World:
                             reply = encode('pong', ident, [None, {'t': 1.0}])
                         else:
                             reply = encode(action + '_reply', ident, payload)
+                        meta = (action, ident, payload)
                         if scen['order'] == 'slow':
                             # replies are sent peer_delay seconds after the request, without blocking the receiver
-                            def later(reply=reply, d=scen['peer_delay']):
+                            def later(reply=reply, d=scen['peer_delay'], meta=meta):
                                 D.vsleep(d)
-                                if not sock.closed:
-                                    sock.peer_send(reply)
+                                if not sock.closed and sock.peer_send(reply):   # (whole: pieces of concurrent replies would interleave)
+                                    state['replied'].append((D.CURRENT.now,) + meta)
                             D.CoThread(target=later, name=f'peer-reply{nreq}').start()
                         elif scen['order'] == 'immediate':
-                            sock.peer_send(reply)
+                            send_reply((reply, meta))
                         elif scen['order'] == 'delayed':
                             D.vsleep(rng.choice([0.0, 0.01, 0.5, 2.0]))
-                            sock.peer_send(reply)
+                            send_reply((reply, meta))
                         else:
-                            held.append(reply)
+                            held.append((reply, meta))
                             if len(held) >= 2:
                                 flush()
 
@@ -173,7 +193,7 @@ class World:
     # ---------------------------------------------------------------- one run
     def run(self, scen, strategy, seed):
         r, D, C = self.r, self.D, self.C
-        state = {'requests_seen': [], 'silenced': [], 'drop_time': None, 'peer_dropped': False, 'read_tokens': [], 'user_drop_time': None}
+        state = {'requests_seen': [], 'replied': [], 'silenced': [], 'drop_time': None, 'peer_dropped': False, 'read_tokens': [], 'user_drop_time': None}
         self.sockmod.listeners.clear()
         del self.sockmod.attempts[:]
         del self.sockmod.sockets[:]
@@ -286,6 +306,10 @@ class World:
             return
         drop = state['drop_time'] if state['peer_dropped'] else None
         udrop = state['user_drop_time']
+        if state.get('pieces_sent'):
+            r.count('replies_sent_in_two_pieces', state['pieces_sent'])
+            if (scen.get('pieces') or 0) > 1.0:
+                r.count('replies_with_a_pause_longer_than_the_socket_timeout', state['pieces_sent'])
         if drop is not None:
             r.count('drops_peer')
         if udrop is not None:
@@ -332,10 +356,12 @@ class World:
                 elif cls == 'TimeoutError':
                     silenced = scen['fault'] == 'silence' or (scen['fault'] == 'silence-first' and
                                                               any(pl == float(tok) for a, i, pl in state['silenced']))
-                    # equal keys are sent one at a time: with a slow peer the time-out legitimately includes queueing.
-                    # judged only if the request reached the peer early enough for its (at most 2 s delayed) reply
-                    seen = [t for t, a, i, pl in state['requests_seen'] if pl == (float(tok) if rec_['kind'] == 'change-target' else tok) or i == f'tok{tok}']
-                    late = not seen or seen[0] + scen.get('peer_delay', 2.0) + 0.5 > rec_['t_call'] + TIMEOUT
+                    # equal keys are sent one at a time and the peer answers one request after the other (possibly in two
+                    # pieces with a pause): the time-out legitimately includes queueing on both sides.  Judged only if the
+                    # whole reply was on the wire at least half a second before the caller's deadline
+                    want = float(tok) if rec_['kind'] == 'change-target' else tok
+                    done = [t for t, a, i, pl in state['replied'] if pl == want or i == f'tok{tok}']
+                    late = not done or done[0] + 0.5 > rec_['t_call'] + TIMEOUT
                     if not silenced and first_drop is None and late:
                         r.count('timeouts_explained_by_queueing')
                         continue
